@@ -3,11 +3,10 @@ CONSTANTS
   MaxEntry = 4
   BufSize = 12
   DepthLimit = 100
-  EmptyFileSeek = {"ioerr", "tooEarly"}
+  EmptyGuard = TRUE
   MaxLines = 4
   MinLen = 1
   MaxLen = 3
-  SkipEmpty = TRUE
 VIEW View
 PROPERTY Refines
 INVARIANTS TargetInRange Premise PositionOnLine BufferCovers SearchInterval DepthBounded NLBelowAgrees NeverFragment
